@@ -119,7 +119,7 @@ var c01Profile = &sim.Profile{
 func init() {
 	register(&Check{
 		ID: "C01", Level: "exploration",
-		Rule: "seeded random histories (25-55 requests, 3 browsers, 3-4 accounts) over random module subsets/load orders/modes; after EVERY request the browser's session uid is compared with the value before; a change to U must be justified by the ledger (valid password by bcrypt equivalence, unspent OTP, live remember cookie, live unexpired recovery token + login-after-recovery, OAuth2 callback with the session's unspent state and provider-reported identity, own registration, 2FA step of a justified pending login). distinct_nontrivial = number of distinct (flow, credential class, account state, session state, mode, uid outcome) signatures observed.",
+		Rule:  "seeded random histories (25-55 requests, 3 browsers, 3-4 accounts) over random module subsets/load orders/modes; after EVERY request the browser's session uid is compared with the value before; a change to U must be justified by the ledger (valid password by bcrypt equivalence, unspent OTP, live remember cookie, live unexpired recovery token + login-after-recovery, OAuth2 callback with the session's unspent state and provider-reported identity, own registration, 2FA step of a justified pending login). distinct_nontrivial = number of distinct (flow, credential class, account state, session state, mode, uid outcome) signatures observed.",
 		Units: func(t string) int { return tierN(t, 600, 30000) },
 		Run: func(c *RunCtx, unit int) {
 			r := Rng(c.Seed, "C01", unit)
